@@ -37,7 +37,11 @@ def doCgn (l : Line) : Option String := do
   let x0 ← l.rats? "x0"
   let n ← l.nat? "n"
   shape? A b.length x0.length; shape? At x0.length b.length
-  let P : CgnP Rat RV RV := ⟨A.mulVec, fun _ => At.mulVec, b, Vec.nsq, Vec.nsq⟩
+  -- `sq=1`: non-linear `x ↦ A (x ⊙ x)`; the code differentiates at `x` initially, at `p` in the loop
+  let sq := l.get? "sq" = some "1"
+  let op : RV → RV := if sq then fun x => A.mulVec (Vec.mul x x) else A.mulVec
+  let dAdj : RV → RV → RV := if sq then fun x w => (2 : Rat) • Vec.mul x (At.mulVec w) else fun _ => At.mulVec
+  let P : CgnP Rat RV RV := ⟨op, dAdj, b, Vec.nsq, Vec.nsq⟩
   let s := iter P.step n (P.init x0 (junk b.length))
   some s!"ok log={showLog s.log} x={showVec s.x} stopped={s.stopped}"
 
